@@ -15,7 +15,6 @@ Proof. apply find_none. Qed.
 
 Section ChainProofs.
   Variable allowed : event -> list event -> bool.
-  Hypothesis Hstut : stutter_invariant allowed.
   Variable prov : N -> presp.
   Hypothesis Hhonest : honest prov.
   Variable root : event.
@@ -49,14 +48,6 @@ Section ChainProofs.
     unfold cres, chain_resolve. induction 1 as [|c x a _ _ Hin Hne Hp].
     - now rewrite N.eqb_refl.
     - rewrite (Hhonest x a Hp). apply N.eqb_neq in Hne. now rewrite Hne, Hp.
-  Qed.
-
-  Lemma res_state_forallb (aes : list N) :
-    forallb (res_state cres) aes = forallb is_state (flat_map (fun x => opt_list (cres x)) aes).
-  Proof.
-    induction aes as [|x r IH]; simpl; auto.
-    rewrite forallb_app, IH. unfold res_state. destruct (cres x); simpl; auto.
-    now rewrite andb_true_r.
   Qed.
 
   (* the invariant of the lookup table *)
@@ -119,34 +110,35 @@ Section ChainProofs.
     exists v m2, check_allowed unit allowed (pcall_of prov) gfuel true curr m1 tt = (v, m2, tt) /\
       (v = VAllowed <->
          forallb is_state (chain_auth_list prov root curr) = true /\
-         allowed curr (chain_auth_list prov root curr) = true) /\
+         allowed_by allowed curr (chain_auth_list prov root curr) = true) /\
       (v = VAllowed -> TableOk m2 /\
          forall x a, mget m2 x = Some (Some a) -> mget m1 x = Some (Some a)) /\
       v <> VOutOfFuel.
   Proof.
     intros [HI Hr] Hnone Hfuel.
-    assert (HF : Fresh prov true cres m1 (auth_ids curr)).
+    assert (HF : Fresh prov cres true m1 (auth_ids curr)).
     { intros x Hx Hm. destruct (Hnone x Hx Hm) as [Hp Hne].
       rewrite cres_other by exact Hne. unfold eff_prov, from_prov. now rewrite Hp. }
-    pose proof (gather_spec prov Hhonest true cres (auth_ids curr) gfuel [] m1 Hfuel HI HF) as G.
-    unfold gather_post in G. rewrite res_state_forallb in G.
-    change (flat_map (fun x => opt_list (cres x)) (auth_ids curr)) with (chain_auth_list prov root curr) in G.
-    unfold check_allowed.
-    destruct (forallb is_state (chain_auth_list prov root curr)) eqn:Hst.
-    - destruct G as (d & m2 & Hg & Hs & HI2 & Hmono & Hprov). rewrite Hg. simpl.
-      change (res_list cres (auth_ids curr)) with (chain_auth_list prov root curr) in Hs.
-      rewrite (stut_allowed0 allowed Hstut curr _ _ Hs).
-      destruct (allowed curr (chain_auth_list prov root curr)) eqn:Ha.
-      + exists VAllowed, m2. split; auto. split; [tauto|]. split; [|discriminate]. intros _. split.
-        * split; auto. rewrite Hmono; auto. congruence.
-        * intros x a Hx. destruct (Hprov x a Hx) as [H|(H1 & H2 & H3)]; auto.
-          exfalso. destruct (Hnone x H1 H2) as [Hp _].
-          unfold eff_prov, from_prov in H3. rewrite Hp in H3. discriminate.
-      + exists VNotAllowed, m2. split; auto. split; [|split; discriminate].
-        split; [discriminate|]. intros [_ H]. discriminate.
-    - destruct G as (acc' & m2 & Hg). rewrite Hg. simpl.
-      exists VAddErr, m2. split; auto. split; [|split; discriminate].
-      split; [discriminate|]. intros [H _]. discriminate.
+    destruct (gather_spec prov Hhonest cres true (auth_ids curr) gfuel [] m1 Hfuel HI HF)
+      as (st & acc' & m2 & Hg & HI2 & Hmono & Hprov & Hif).
+    rewrite admissible_split in Hif.
+    change (res_list cres (auth_ids curr)) with (chain_auth_list prov root curr) in Hif.
+    unfold check_allowed. rewrite Hg. unfold allowed_by, tuples_distinct.
+    destruct (forallb is_state (chain_auth_list prov root curr)) eqn:Hst; simpl in Hif.
+    - destruct (tuples_ok [] (chain_auth_list prov root curr)) eqn:Htd.
+      + destruct Hif as [-> ->]. simpl.
+        destruct (allowed curr (chain_auth_list prov root curr)) eqn:Ha.
+        * exists VAllowed, m2. split; auto. split; [tauto|]. split; [|discriminate]. intros _. split.
+          -- split; auto. rewrite Hmono; auto. congruence.
+          -- intros x a Hx. destruct (Hprov x a Hx) as [H|(H1 & H2 & H3)]; auto.
+             exfalso. destruct (Hnone x H1 H2) as [Hp _].
+             unfold eff_prov, from_prov in H3. rewrite Hp in H3. discriminate.
+        * exists VNotAllowed, m2. split; auto. split; [|split; discriminate].
+          split; [discriminate|]. intros [_ H]. discriminate.
+      + destruct Hif as [-> | ->]; [exists VAddErr, m2 | exists VDupTuple, m2];
+          (split; auto; split; [|split; discriminate]; split; [discriminate|]; intros [_ H]; discriminate).
+    - destruct Hif as [-> | ->]; [exists VAddErr, m2 | exists VDupTuple, m2];
+        (split; auto; split; [|split; discriminate]; split; [discriminate|]; intros [H _]; discriminate).
   Qed.
 
   (* ---------------- soundness ---------------- *)
